@@ -233,9 +233,12 @@ static void run_smooth(uint64_t seed, unsigned feat, int nbody, int nrep, unsign
         mjtNum g[3] = {m->actuator_gainprm[mjNGAIN * i], 0, 0}, b[3] = {0, 0, 0};
         if (m->actuator_gaintype[i] == mjGAIN_AFFINE) { g[1] = m->actuator_gainprm[mjNGAIN * i + 1]; g[2] = m->actuator_gainprm[mjNGAIN * i + 2]; }
         if (m->actuator_biastype[i] == mjBIAS_AFFINE) for (int k = 0; k < 3; k++) b[k] = m->actuator_biasprm[mjNBIAS * i + k];
+        // the raw input and, for stateless actuators, the control limits the forward pass clamps with (indexed by control)
+        int ua = m->actuator_ctrladr[i], stateless = m->actuator_dyntype[i] == mjDYN_NONE;
+        int climited = stateless && m->actuator_ctrllimited[ua] && !(m->opt.disableflags & mjDSBL_CLAMPCTRL);
         printf("LINA %d %d %a %a %a", mj_actuatorDisabled(m, i), (int)m->actuator_forcelimited[i], (double)d->actuator_force[oa],
                (double)m->actuator_forcerange[2 * i], (double)m->actuator_forcerange[2 * i + 1]);
-        pd(g, 3); pd(b, 3); printf(" %a", (double)input); pd(row, nv); printf("\n");
+        pd(g, 3); pd(b, 3); printf(" %a %d %a %a", (double)input, climited, (double)m->actuator_ctrlrange[2 * ua], (double)m->actuator_ctrlrange[2 * ua + 1]); pd(row, nv); printf("\n");
       }
       for (int t = 0; t < m->ntendon; t++) {
         for (int k = 0; k < nv; k++) row[k] = 0;
